@@ -568,7 +568,8 @@ func checkC10(c *Check, p *Program) {
 					c.Decide(held == "", "C10.K5", fnName+" Wait holds no lock the worker takes", pos, "lockset at the join: "+lc.HeldSet(x), "Close waits for the worker while holding "+held+": when the worker is about to take that lock (reconnect) both wait for ever")
 				case "sync.Mutex.Lock":
 					nBlock++
-					c.OK("C10.K5", fnName+" Lock "+lockKey(callRecv(x)), pos, "holders leave through their select exits (K5) - mutual exclusion only")
+					rel, whyNot := lockReleased(fn, x)
+					c.Decide(rel, "C10.K5", fnName+" Lock "+lockKey(callRecv(x)), pos, "released on every path (Unlock or deferred Unlock); holders leave through their select exits (K5)", "the lock is not released on every path: "+whyNot+" - the next Send (or reconnect) blocks for ever")
 				default:
 					nBlock++
 					c.Fail("C10.K5", fnName+" "+d, pos, "unbounded blocking call in a tunnel goroutine")
